@@ -331,6 +331,14 @@ func PrepareFact(ctx *Context, givenId string, x Map) (id string, m map[string]i
 		Log(UERR, ctx, "PrepareFact", "givenId", givenId, "error", err)
 		return
 	}
+	if isProp, _, _, _, _ := parseProp(m); !isProp && strings.HasPrefix(id, "!") && !(ctx != nil && ctx.GetLoc() != nil && ctx.GetLoc().loading) {
+		// Those are the ids of properties (see 'ValidateId'): a
+		// fact stored as "!.writeKey" that is no property is an
+		// unreadable key.
+		err = fmt.Errorf("id '%s' cannot start with a '!'", id)
+		Log(UERR, ctx, "PrepareFact", "givenId", givenId, "error", err)
+		return
+	}
 
 	expiring, expires, err := setExpires(ctx, m)
 	if err != nil {
@@ -349,8 +357,15 @@ func PrepareFact(ctx *Context, givenId string, x Map) (id string, m map[string]i
 		Log(DEBUG, ctx, "PrepareFact", "givenId", givenId, "ttl", ttl)
 	}
 
-	if isProp, target, _, _, _ := parseProp(m); isProp && target != "" {
-		if _, given := m[KW_DeleteWith]; !given {
+	if isProp, target, prop, val, _ := parseProp(m); isProp {
+		// (What is stored already is loaded as it is.)
+		loading := ctx != nil && ctx.GetLoc() != nil && ctx.GetLoc().loading
+		if target == "" && !loading {
+			if err = checkReservedProp(prop, val); err != nil {
+				Log(UERR, ctx, "PrepareFact", "givenId", givenId, "error", err)
+				return
+			}
+		} else if _, given := m[KW_DeleteWith]; !given {
 			// A property goes with what it is a property of,
 			// also when it was not written with 'SetProp'.
 			m[KW_DeleteWith] = []interface{}{target}
@@ -362,6 +377,39 @@ func PrepareFact(ctx *Context, givenId string, x Map) (id string, m map[string]i
 	Log(DEBUG, ctx, "PrepareFact", "givenId", givenId, "id", id, "x", m)
 
 	return
+}
+
+// checkReservedProp refuses a value for one of the location-level
+// properties that the engine itself reads if the engine could not
+// read that value back.  A write key that is not a string, say, is
+// stored happily, and from then on no write gets past the check of
+// the key, including the one that would repair it.
+func checkReservedProp(prop string, val interface{}) error {
+	switch prop {
+	case "writeKey", "readKey", "enabled", "createdAt":
+		if _, ok := val.(string); !ok {
+			return fmt.Errorf("property '%s' wants a string, not %#v", prop, val)
+		}
+	case "parents":
+		switch vv := val.(type) {
+		case []string:
+		case []interface{}:
+			for _, x := range vv {
+				if _, ok := x.(string); !ok {
+					return fmt.Errorf("property 'parents' wants strings, not %#v", x)
+				}
+			}
+		default:
+			return fmt.Errorf("property 'parents' wants a list of strings, not %#v", val)
+		}
+	case "cacheTTL":
+		switch val.(type) {
+		case float64, int, int64:
+		default:
+			return fmt.Errorf("property 'cacheTTL' wants a number (milliseconds), not %#v", val)
+		}
+	}
+	return nil
 }
 
 // SearchResult packages up a found fact and the bindings that make it
